@@ -502,11 +502,17 @@ def check_argmin(prog, rep, m, g, role):
     va = _single_atom(facts['V']) if isinstance(facts.get('V'), Rat) else None
     if va is not None and va.name in ('read', 'cell?') and isinstance(va.args[0], str):
         txt = txt.replace("'%s'" % va.args[0], "'cost'")     # the table is keyed with the scanned array called `cost`
-    ok = isinstance(init, Rat) and (init == Rat.atom(App('inf', [])) or txt in ARGMIN_TABLE)
+    accepted = None
+    if va is not None and va.name in ('read', 'cell?') and isinstance(va.args[0], str) and isinstance(init, Rat):
+        h_, w_ = Rat.atom(App('shape', [va.args[0], 0])), Rat.atom(App('shape', [va.args[0], 1]))
+        if init == (h_ + w_) * (h_ + w_):
+            # (h + w)^2 of the scanned array itself: above every reachable f = g + h (the table's reason)
+            accepted = next(iter(ARGMIN_TABLE.values()))
+    ok = isinstance(init, Rat) and (init == Rat.atom(App('inf', [])) or accepted is not None)
     rep.add('A6', g, ENTRY, '%s: running minimum `%s` starts at %s' % (g.name, mn, show(init, 90)), g.node.lineno, ok,
             'an argmin with a strict `<` test finds nothing when its initial value is attainable: it must start at +inf '
             '(a corner-to-corner distance IS attained by the opposite corner, so the only crossable cell there is never '
-            'snapped to)' + (' [accepted: %s]' % ARGMIN_TABLE[txt] if txt in ARGMIN_TABLE else ''))
+            'snapped to)' + (' [accepted: %s]' % accepted if accepted else ''))
     return facts
 
 
